@@ -9,9 +9,10 @@
   real code (after the F8 fix) still violates the property, and each window is refuted below on a
   concrete schedule (`*_witness`), replayed on the real code by the harness (known findings):
 
-    `calm`      (a) a loop is not closed while it holds accepted callbacks that did not run,
+    `calm`      (a) a loop is not closed while it holds accepted callbacks that did not run or tasks
+                    made by `run_in_terminal` that did not start,
                 (b) the flush thread does not write directly (no application found) while such
-                    callbacks are still waiting;
+                    callbacks / tasks are still waiting;
     `startCalm` no application starts between the flush thread's look-up that found none and
                 the direct write that follows.
 -/
@@ -109,15 +110,39 @@ def allText (ops : List Op) : Text := ((writesOf ops).map (·.2)).flatten
 
 /-- where every written character is, from the terminal backwards to the line buffer -/
 def stream (s : St) : Text :=
-  outText s.log ++ cat s.pending ++ held s.fl ++ qText s.queue ++ cat s.buffer
+  outText s.log ++ cat (taskTexts s.tasks) ++ cat s.pending ++ held s.fl ++ qText s.queue ++ cat s.buffer
+
+/-- the loop holds nothing of the proxy: no accepted callback, no task waiting for its first step -/
+def loopIdle (s : St) : Bool := s.pending.isEmpty && s.tasks.isEmpty
 
 /-- schedule restriction: the two windows in which the hand-off to the loop is not safe -/
 def calmStep (s : St) : Op → Bool
-  | .closeLoop => s.pending.isEmpty
+  | .closeLoop => loopIdle s
   | .fl => match s.fl with
-    | .ready none _ _ => s.pending.isEmpty
+    | .ready none _ _ => loopIdle s
     | _ => true
   | _ => true
+
+/-- the code as it is: `run_in_terminal` returns `ensure_future(run())`; no task is ever registered with the
+    application -/
+def NoReg (s : St) : Prop := s.regTasks = false ∧ ∀ k ∈ s.tasks, k.reg = false
+
+theorem noReg_init (raw : Bool) : NoReg (init raw) := by simp [NoReg, init]
+
+theorem filter_noReg {ts : List Task} (h : ∀ k ∈ ts, k.reg = false) :
+    ts.filter notReg = ts ∧ ts.filter isReg = [] := by
+  induction ts with
+  | nil => simp
+  | cons k ks ih =>
+    have hk := h k (by simp)
+    have := ih (fun x hx => h x (by simp [hx]))
+    simp [List.filter, notReg, isReg, hk, this]
+
+theorem taskTexts_append (a b : List Task) : taskTexts (a ++ b) = taskTexts a ++ taskTexts b := by
+  simp [taskTexts]
+
+theorem loopIdle_iff (s : St) : loopIdle s = true ↔ s.pending = [] ∧ s.tasks = [] := by
+  simp [loopIdle]
 
 def calm : St → List Op → Bool
   | _, [] => true
@@ -133,7 +158,60 @@ theorem allText_cons (o : Op) (os : List Op) : allText (o :: os) = opText o ++ a
 theorem held_afterEmit (dn : Bool) : held (afterEmit dn) = [] := by
   cases dn <;> rfl
 
-theorem stream_step (s : St) (o : Op) (h : calmStep s o = true) :
+theorem noReg_step (s : St) (o : Op) (h : NoReg s) : NoReg (step s o) := by
+  obtain ⟨hr, ht⟩ := h
+  cases o with
+  | write t d => simp only [step, doWrite]; split <;> exact ⟨hr, ht⟩
+  | writeBad t => exact ⟨hr, ht⟩
+  | flush t => exact ⟨hr, ht⟩
+  | close => exact ⟨hr, ht⟩
+  | fl =>
+    simp only [step, flStep]
+    split
+    · split <;> exact ⟨hr, ht⟩
+    · exact ⟨hr, ht⟩
+    · exact ⟨hr, ht⟩
+    · split <;> exact ⟨hr, ht⟩
+    · exact ⟨hr, ht⟩
+    · exact ⟨hr, ht⟩
+  | run =>
+    simp only [step, runStep]
+    split
+    · exact ⟨hr, ht⟩
+    · refine ⟨hr, ?_⟩
+      intro k hk
+      simp only [List.mem_append, List.mem_singleton] at hk
+      rcases hk with hk | rfl
+      · exact ht k hk
+      · simp [hr]
+  | task =>
+    simp only [step, taskStep]
+    split
+    · exact ⟨hr, ht⟩
+    · rename_i k ts hts
+      split <;> exact ⟨hr, fun x hx => ht x (by simp [hts, hx])⟩
+  | start => simp only [step]; split <;> exact ⟨hr, ht⟩
+  | stop =>
+    simp only [step]
+    split
+    · exact ⟨hr, fun k hk => ht k (List.mem_filter.mp hk).1⟩
+    · exact ⟨hr, ht⟩
+  | finish => simp only [step]; split <;> exact ⟨hr, ht⟩
+  | newLoop => simp only [step]; split <;> exact ⟨hr, ht⟩
+  | closeLoop =>
+    simp only [step]
+    split
+    · exact ⟨hr, by simp⟩
+    · exact ⟨hr, ht⟩
+  | inval => simp only [step]; split <;> exact ⟨hr, ht⟩
+  | exit => simp only [step]; split <;> exact ⟨hr, ht⟩
+
+theorem noReg_run (s : St) (ops : List Op) (h : NoReg s) : NoReg (runOps s ops) := by
+  induction ops generalizing s with
+  | nil => exact h
+  | cons o os ih => exact ih _ (noReg_step s o h)
+
+theorem stream_step (s : St) (o : Op) (hn : NoReg s) (h : calmStep s o = true) :
     stream (step s o) = stream s ++ opText o ∧ (step s o).lost = s.lost := by
   cases o with
   | write t d =>
@@ -144,6 +222,7 @@ theorem stream_step (s : St) (o : Op) (h : calmStep s o = true) :
       obtain ⟨b, a⟩ := p
       have := rsplitNl_some hr
       simp [stream, cat, qText_append, qText, ← this]
+  | writeBad t => simp [step, opText]
   | flush t => simp [step, doFlush, stream, cat, qText_append, qText, opText]
   | close => simp [step, stream, qText_append, qText, opText]
   | fl =>
@@ -172,8 +251,8 @@ theorem stream_step (s : St) (o : Op) (h : calmStep s o = true) :
       cases lp with
       | none =>
         simp only [calmStep, hf] at h
-        have hp : s.pending = [] := by simpa using h
-        simp only [stream, held_afterEmit, hf, hp]; simp [held, outText_append, outText, cat]
+        obtain ⟨hp, ht⟩ := (loopIdle_iff s).mp h
+        simp only [stream, held_afterEmit, hf, hp, ht]; simp [held, outText_append, outText, cat, taskTexts]
       | some g =>
         simp only
         split
@@ -185,23 +264,32 @@ theorem stream_step (s : St) (o : Op) (h : calmStep s o = true) :
     simp only [step, runStep, opText, List.append_nil]
     cases hp : s.pending with
     | nil => simp [stream, hp]
-    | cons t ps =>
+    | cons t ps => simp [stream, hp, cat, taskTexts]
+  | task =>
+    simp only [step, taskStep, opText, List.append_nil]
+    cases ht : s.tasks with
+    | nil => simp [stream, ht]
+    | cons k ts =>
       simp only
-      split <;> simp [stream, hp, cat, outText_append, outText]
+      split <;> simp [stream, ht, cat, taskTexts, outText_append, outText]
   | start =>
     simp only [step, opText, List.append_nil]
     split <;> simp [stream, outText_append, outText]
   | stop =>
     simp only [step, opText, List.append_nil]
-    split <;> simp [stream, outText_append, outText]
+    obtain ⟨h1, h2⟩ := filter_noReg hn.2
+    split <;> simp [stream, outText_append, outText, h1, h2, taskTexts]
+  | finish =>
+    simp only [step, opText, List.append_nil]
+    split <;> simp [stream]
   | newLoop =>
     simp only [step, opText, List.append_nil]
     split <;> simp [stream]
   | closeLoop =>
     simp only [calmStep] at h
-    have hp : s.pending = [] := by simpa using h
+    obtain ⟨hp, ht⟩ := (loopIdle_iff s).mp h
     simp only [step, opText, List.append_nil]
-    split <;> simp [stream, hp]
+    split <;> simp [stream, hp, ht, taskTexts]
   | inval =>
     simp only [step, opText, List.append_nil]
     split <;> simp [stream, outText_append, outText]
@@ -316,7 +404,7 @@ def startCalm : St → List Op → Bool
 /-- invariant behind `inside_bracket` -/
 structure BInv (s : St) : Prop where
   ph : phRun .off s.log = some (phaseOf s.appOn)
-  appLoop : s.appOn = true → s.loopOpen = true
+  appLoop : (s.appOn = true ∨ s.winding = true) → s.loopOpen = true
   direct : ∀ t d, s.fl = .ready none t d → s.appOn = false
   relook : ∀ g t d, s.fl = .relook g t d → g < s.loopGen ∨ (g = s.loopGen ∧ s.loopOpen = false)
   ready : ∀ g t d, s.fl = .ready (some g) t d → g ≤ s.loopGen
@@ -329,12 +417,22 @@ theorem afterEmit_ne_ready (dn : Bool) (l : Option Nat) (t : Text) (d : Bool) : 
 theorem afterEmit_ne_relook (dn : Bool) (g : Nat) (t : Text) (d : Bool) : afterEmit dn ≠ .relook g t d := by
   cases dn <;> simp [afterEmit]
 
+theorem appLoop_none {s : St} (h : appLoop s = none) : s.appOn = false ∧ s.winding = false := by
+  unfold appLoop at h
+  cases ha : s.appOn <;> cases hw : s.winding <;> simp [ha, hw] at h ⊢
+
+theorem appLoop_some {s : St} {g : Nat} (h : appLoop s = some g) :
+    g = s.loopGen ∧ (s.appOn = true ∨ s.winding = true) := by
+  unfold appLoop at h
+  cases ha : s.appOn <;> cases hw : s.winding <;> simp [ha, hw] at h ⊢ <;> omega
+
 theorem binv_step (s : St) (o : Op) (hs : startSafe s o = true) (h : BInv s) : BInv (step s o) := by
   obtain ⟨hph, hal, hdir, hrl, hrd⟩ := h
   cases o with
   | write t d =>
     simp only [step, doWrite]
     split <;> exact ⟨hph, hal, hdir, hrl, hrd⟩
+  | writeBad t => exact ⟨hph, hal, hdir, hrl, hrd⟩
   | flush t => exact ⟨hph, hal, hdir, hrl, hrd⟩
   | close => exact ⟨hph, hal, hdir, hrl, hrd⟩
   | fl =>
@@ -355,16 +453,13 @@ theorem binv_step (s : St) (o : Op) (hs : startSafe s o = true) (h : BInv s) : B
       simp only
       refine ⟨hph, hal, ?_, by simp, ?_⟩
       · intro t d he
-        simp only [Fl.ready.injEq, appLoop] at he
-        by_cases ha : s.appOn = true
-        · simp [ha] at he
-        · simpa using ha
+        simp only [Fl.ready.injEq] at he
+        exact (appLoop_none he.1).1
       · intro g t d he
-        simp only [Fl.ready.injEq, appLoop] at he
+        simp only [Fl.ready.injEq] at he
+        have := (appLoop_some he.1).1
         show g ≤ s.loopGen
-        by_cases ha : s.appOn = true
-        · simp [ha] at he; omega
-        · simp [ha] at he
+        omega
     | ready lp txt dn =>
       cases lp with
       | none =>
@@ -397,35 +492,32 @@ theorem binv_step (s : St) (o : Op) (hs : startSafe s o = true) (h : BInv s) : B
     | relook g txt dn =>
       have hr := hrl g txt dn hf
       have hne : appLoop s ≠ some g := by
-        unfold appLoop
-        by_cases ha : s.appOn = true
-        · have := hal ha
-          simp only [ha, if_true, ne_eq, Option.some.injEq]
-          intro hg
-          rcases hr with h1 | ⟨_, h2⟩
-          · omega
-          · simp [this] at h2
-        · simp [ha]
+        intro he
+        obtain ⟨hg, hw⟩ := appLoop_some he
+        have := hal hw
+        rcases hr with h1 | ⟨_, h2⟩
+        · omega
+        · simp [this] at h2
       simp only [hne, if_false]
       refine ⟨hph, hal, ?_, by simp, ?_⟩
       all_goals simp only
       · intro t d he
-        simp only [Fl.ready.injEq, appLoop] at he
-        by_cases ha : s.appOn = true
-        · simp [ha] at he
-        · simpa using ha
+        simp only [Fl.ready.injEq] at he
+        exact (appLoop_none he.1).1
       · intro g' t d he
-        simp only [Fl.ready.injEq, appLoop] at he
+        simp only [Fl.ready.injEq] at he
+        have := (appLoop_some he.1).1
         show g' ≤ s.loopGen
-        by_cases ha : s.appOn = true
-        · simp [ha] at he; omega
-        · simp [ha] at he
+        omega
     | exited => exact ⟨hph, hal, by simp [hf], by simp [hf], by simp [hf]⟩
   | run =>
     simp only [step, runStep]
-    cases hp : s.pending with
+    split <;> exact ⟨hph, hal, hdir, hrl, hrd⟩
+  | task =>
+    simp only [step, taskStep]
+    cases hp : s.tasks with
     | nil => exact ⟨hph, hal, hdir, hrl, hrd⟩
-    | cons t ps =>
+    | cons k ts =>
       simp only
       by_cases ha : s.appOn = true
       · rw [if_pos ha]
@@ -439,7 +531,7 @@ theorem binv_step (s : St) (o : Op) (hs : startSafe s o = true) (h : BInv s) : B
     simp only [step]
     split
     · rename_i hc
-      have ha' : s.appOn = false := by simpa using hc.2
+      have ha' : s.appOn = false := by simpa using hc.2.1
       refine ⟨?_, fun _ => hc.1, ?_, hrl, hrd⟩
       · simp only [phRun_append, hph, ha', phaseOf]; rfl
       · intro t d he
@@ -450,8 +542,17 @@ theorem binv_step (s : St) (o : Op) (hs : startSafe s o = true) (h : BInv s) : B
     simp only [step]
     split
     · rename_i hc
-      refine ⟨?_, by simp, by simp, hrl, hrd⟩
+      refine ⟨?_, fun _ => hal (Or.inl hc), by simp, hrl, hrd⟩
       simp only [phRun_append, hph, hc, phaseOf]; rfl
+    · exact ⟨hph, hal, hdir, hrl, hrd⟩
+  | finish =>
+    simp only [step]
+    split
+    · refine ⟨hph, ?_, hdir, hrl, hrd⟩
+      intro hw
+      rcases hw with hw | hw
+      · exact hal (Or.inl hw)
+      · simp at hw
     · exact ⟨hph, hal, hdir, hrl, hrd⟩
   | newLoop =>
     simp only [step]
@@ -471,8 +572,9 @@ theorem binv_step (s : St) (o : Op) (hs : startSafe s o = true) (h : BInv s) : B
     simp only [step]
     split
     · rename_i hc
-      have ha' : s.appOn = false := by simpa using hc.2
-      refine ⟨hph, by simp [ha'], hdir, ?_, hrd⟩
+      have ha' : s.appOn = false := by simpa using hc.2.1
+      have hw' : s.winding = false := by simpa using hc.2.2
+      refine ⟨hph, by simp [ha', hw'], hdir, ?_, hrd⟩
       intro g t d he
       rcases hrl g t d he with h1 | ⟨h2, _⟩
       · left; exact h1
@@ -491,30 +593,31 @@ theorem binv_step (s : St) (o : Op) (hs : startSafe s o = true) (h : BInv s) : B
 
 /-! ### main theorems: exactly once, order, contiguity -/
 
-theorem stream_run (s : St) (ops : List Op) (hc : calm s ops = true) :
+theorem stream_run (s : St) (ops : List Op) (hn : NoReg s) (hc : calm s ops = true) :
     stream (runOps s ops) = stream s ++ allText ops ∧ (runOps s ops).lost = s.lost := by
   induction ops generalizing s with
   | nil => simp [runOps, allText, writesOf]
   | cons o os ih =>
     simp only [calm, Bool.and_eq_true] at hc
-    obtain ⟨h1, h2⟩ := stream_step s o hc.1
-    obtain ⟨h3, h4⟩ := ih (step s o) hc.2
+    obtain ⟨h1, h2⟩ := stream_step s o hn hc.1
+    obtain ⟨h3, h4⟩ := ih (step s o) (noReg_step s o hn) hc.2
     simp only [runOps, h3, h4, h1, h2, allText_cons, List.append_assoc, and_self]
 
 /-- **stream_invariant.**  At every state reachable by a calm schedule, the text already given to the
-    output, followed by the callbacks waiting in the loop, the text held by the flush thread, the
-    queue and the line buffer, is exactly the concatenation of all write calls in
-    lock-acquisition order; nothing was dropped. -/
+    output, followed by the tasks `run_in_terminal` made that did not start yet, the callbacks waiting in
+    the loop, the text held by the flush thread, the queue and the line buffer, is exactly the
+    concatenation of all write calls in lock-acquisition order; nothing was dropped — wherever the
+    start, `exit()`, wake-up (`stop`) and return (`finish`) of the application fall between these steps. -/
 theorem stream_invariant (raw : Bool) (ops : List Op) (hc : calm (init raw) ops = true) :
     stream (runOps (init raw) ops) = allText ops ∧ (runOps (init raw) ops).lost = [] := by
-  have := stream_run (init raw) ops hc
-  simpa [stream, init, outText, cat, held, qText] using this
+  have := stream_run (init raw) ops (noReg_init raw) hc
+  simpa [stream, init, outText, cat, held, qText, taskTexts] using this
 
 example : calm (init false) [.write 0 ['a'], .newLoop, .start, .write 1 ['b', '\n', 'c'], .fl, .fl, .fl,
     .write 0 ['\n'], .run, .stop] = true := by decide
 
 theorem quiescent_iff (s : St) : quiescent s = true ↔
-    cat s.buffer = [] ∧ qText s.queue = [] ∧ held s.fl = [] ∧ s.pending = [] := by
+    cat s.buffer = [] ∧ qText s.queue = [] ∧ held s.fl = [] ∧ s.pending = [] ∧ s.tasks = [] := by
   simp [quiescent, and_assoc]
 
 /-- **exactly_once_after_flush.**  Once nothing is in flight any more (after a flush and after the
@@ -524,9 +627,9 @@ theorem exactly_once_after_flush (raw : Bool) (ops : List Op) (hc : calm (init r
     (hq : quiescent (runOps (init raw) ops) = true) :
     outText (runOps (init raw) ops).log = allText ops := by
   obtain ⟨h, -⟩ := stream_invariant raw ops hc
-  obtain ⟨h1, h2, h3, h4⟩ := (quiescent_iff _).mp hq
+  obtain ⟨h1, h2, h3, h4, h5⟩ := (quiescent_iff _).mp hq
   unfold cat at h1
-  simpa [stream, h1, h2, h3, h4, cat] using h
+  simpa [stream, h1, h2, h3, h4, h5, cat, taskTexts] using h
 
 /-- the data of the write calls of a schedule, in lock-acquisition order -/
 def writeData (ops : List Op) : List Text := (writesOf ops).map (·.2)
@@ -580,7 +683,7 @@ theorem per_thread_order_output (raw : Bool) (ops : List Op) (hc : calm (init ra
 -- non-vacuity: three threads, partial lines, an application that starts and stops
 example :
     let ops : List Op := [.write 0 ['a'], .write 1 ['b', '\n', 'c'], .newLoop, .start, .fl, .fl, .write 2 ['x', '\n'],
-      .fl, .run, .write 0 ['\n'], .flush 1, .fl, .fl, .fl, .run, .stop, .fl, .fl, .fl]
+      .fl, .run, .write 0 ['\n'], .flush 1, .fl, .fl, .task, .fl, .run, .stop, .task, .fl, .fl, .finish, .fl]
     calm (init false) ops = true ∧ quiescent (runOps (init false) ops) = true ∧
     outText (runOps (init false) ops).log = ['a', 'b', '\n', 'c', 'x', '\n', '\n'] := by decide
 
@@ -671,10 +774,10 @@ theorem section_shape (raw : Bool) (ops : List Op) (hs : startCalm (init raw) op
     cases e <;> simp [phRun, phStep] at h3
     exact ⟨es, rfl⟩
 
-example : startCalm (init true) [.newLoop, .start, .write 0 ['a', '\n'], .fl, .fl, .fl, .run, .stop, .write 1 ['b', '\n'],
-    .fl, .fl, .fl] = true ∧
-    (runOps (init true) [.newLoop, .start, .write 0 ['a', '\n'], .fl, .fl, .fl, .run, .stop, .write 1 ['b', '\n'],
-    .fl, .fl, .fl]).log = [.draw, .erase, .out true ['a', '\n'], .draw, .doneDraw, .out true ['b', '\n']] := by decide
+example : startCalm (init true) [.newLoop, .start, .write 0 ['a', '\n'], .fl, .fl, .fl, .run, .task, .stop, .finish,
+    .write 1 ['b', '\n'], .fl, .fl, .fl] = true ∧
+    (runOps (init true) [.newLoop, .start, .write 0 ['a', '\n'], .fl, .fl, .fl, .run, .task, .stop, .finish,
+    .write 1 ['b', '\n'], .fl, .fl, .fl]).log = [.draw, .erase, .out true ['a', '\n'], .draw, .doneDraw, .out true ['b', '\n']] := by decide
 
 
 /-! ### the flush thread stays alive (F8) -/
@@ -741,13 +844,16 @@ theorem alive_step (s : St) (o : Op) (ho : o ≠ .close)
       | some g => simp only; split <;> simp [hq, hf, afterEmit, flDone]
     | relook g txt dn => rw [hfl] at hf; simpa [flDone] using ⟨hq, hf⟩
     | exited => rw [hfl] at hf; simp [flDone] at hf
-  | run =>
-    simp only [step, runStep]
+  | writeBad t => exact ⟨hq, hf⟩
+  | run => simp only [step, runStep]; split <;> exact ⟨hq, hf⟩
+  | task =>
+    simp only [step, taskStep]
     split
     · exact ⟨hq, hf⟩
     · split <;> exact ⟨hq, hf⟩
   | start => simp only [step]; split <;> exact ⟨hq, hf⟩
   | stop => simp only [step]; split <;> exact ⟨hq, hf⟩
+  | finish => simp only [step]; split <;> exact ⟨hq, hf⟩
   | newLoop => simp only [step]; split <;> exact ⟨hq, hf⟩
   | closeLoop => simp only [step]; split <;> exact ⟨hq, hf⟩
   | inval => simp only [step]; split <;> exact ⟨hq, hf⟩
@@ -770,16 +876,16 @@ theorem flusher_alive (raw : Bool) (ops : List Op) (hn : noClose ops = true) :
     have hn' : noClose os = true := by cases o <;> simp_all [noClose]
     exact ih hn' (step s o) (alive_step s o ho hs)
 
-example : noClose [.newLoop, .start, .write 0 ['a', '\n'], .fl, .fl, .stop, .closeLoop, .fl, .fl, .fl] = true ∧
-    (runOps (init false) [.newLoop, .start, .write 0 ['a', '\n'], .fl, .fl, .stop, .closeLoop, .fl, .fl, .fl]).fl = .idle ∧
-    (runOps (init false) [.newLoop, .start, .write 0 ['a', '\n'], .fl, .fl, .stop, .closeLoop, .fl, .fl, .fl]).log
+example : noClose [.newLoop, .start, .write 0 ['a', '\n'], .fl, .fl, .stop, .finish, .closeLoop, .fl, .fl, .fl] = true ∧
+    (runOps (init false) [.newLoop, .start, .write 0 ['a', '\n'], .fl, .fl, .stop, .finish, .closeLoop, .fl, .fl, .fl]).fl = .idle ∧
+    (runOps (init false) [.newLoop, .start, .write 0 ['a', '\n'], .fl, .fl, .stop, .finish, .closeLoop, .fl, .fl, .fl]).log
       = [.draw, .doneDraw, .out false ['a', '\n']] := by decide
 
 /-! ### the excluded windows are real: witnesses (known findings) -/
 
 /-- K1: a callback was accepted by the loop, the application stops and the loop is closed before the
     callback ran: the text is gone although everything was flushed. -/
-def k1 : List Op := [.newLoop, .start, .write 0 ['a', '\n'], .fl, .fl, .fl, .stop, .closeLoop, .flush 0, .fl]
+def k1 : List Op := [.newLoop, .start, .write 0 ['a', '\n'], .fl, .fl, .fl, .stop, .finish, .closeLoop, .flush 0, .fl]
 
 theorem lost_when_loop_closes_witness :
     quiescent (runOps (init false) k1) = true ∧ calm (init false) k1 = false ∧
@@ -788,8 +894,8 @@ theorem lost_when_loop_closes_witness :
 
 /-- K2: the flush thread hands `a` to a loop whose application has just stopped, then finds no
     application for `b` and writes it directly, before the loop ran the callback for `a`. -/
-def k2 : List Op := [.newLoop, .start, .write 0 ['a', '\n'], .fl, .fl, .stop, .fl, .write 0 ['b', '\n'],
-  .fl, .fl, .fl, .run]
+def k2 : List Op := [.newLoop, .start, .write 0 ['a', '\n'], .fl, .fl, .stop, .finish, .fl, .write 0 ['b', '\n'],
+  .fl, .fl, .fl, .run, .task]
 
 theorem order_swapped_witness :
     quiescent (runOps (init false) k2) = true ∧ calm (init false) k2 = false ∧
@@ -807,10 +913,20 @@ theorem text_on_prompt_witness :
 
 /-! ### conservation, for every schedule (also the ones that are not calm) -/
 
-/-- every place where a written character can be: the output, callbacks dropped by a closed loop,
+/-- every place where a written character can be: the output, callbacks / tasks dropped by a closed loop
+    (or cancelled by the application, in the `regTasks` variant), tasks waiting for their first step,
     callbacks waiting in the loop, the flush thread's locals, the queue, the line buffer -/
 def everywhere (s : St) : Text :=
-  outText s.log ++ cat s.lost ++ cat s.pending ++ held s.fl ++ qText s.queue ++ cat s.buffer
+  outText s.log ++ cat s.lost ++ cat (taskTexts s.tasks) ++ cat s.pending ++ held s.fl ++ qText s.queue ++ cat s.buffer
+
+theorem count_filter_split (ts : List Task) (c : Char) :
+    (cat (taskTexts (ts.filter notReg))).count c + (cat (taskTexts (ts.filter isReg))).count c
+      = (cat (taskTexts ts)).count c := by
+  induction ts with
+  | nil => simp [taskTexts, cat]
+  | cons k ks ih =>
+    cases hk : k.reg <;>
+      simp [List.filter, notReg, isReg, hk, taskTexts, cat, List.count_append] at ih ⊢ <;> omega
 
 theorem count_step (s : St) (o : Op) (c : Char) :
     (everywhere (step s o)).count c = (everywhere s).count c + (opText o).count c := by
@@ -859,26 +975,40 @@ theorem count_step (s : St) (o : Op) (c : Char) :
         · simp [everywhere, hf, held]
     | relook g txt dn => simp [everywhere, hf, held]
     | exited => simp [everywhere, hf]
+  | writeBad t => simp [step, opText]
   | run =>
     simp only [step, runStep, opText, List.count_nil, Nat.add_zero]
     cases hp : s.pending with
     | nil => simp [everywhere, hp]
-    | cons t ps =>
+    | cons t ps => simp [everywhere, hp, cat, taskTexts, List.count_append]
+  | task =>
+    simp only [step, taskStep, opText, List.count_nil, Nat.add_zero]
+    cases hp : s.tasks with
+    | nil => simp [everywhere, hp]
+    | cons k ts =>
       simp only
-      split <;> (simp [everywhere, hp, cat, outText_append, outText, List.count_append]; omega)
+      split <;> (simp [everywhere, hp, cat, taskTexts, outText_append, outText, List.count_append]; omega)
   | start =>
     simp only [step, opText, List.count_nil, Nat.add_zero]
     split <;> simp [everywhere, outText_append, outText]
   | stop =>
     simp only [step, opText, List.count_nil, Nat.add_zero]
-    split <;> simp [everywhere, outText_append, outText]
+    split
+    · have := count_filter_split s.tasks c
+      simp only [cat] at this
+      simp [everywhere, outText_append, outText, cat, List.count_append]
+      omega
+    · rfl
+  | finish =>
+    simp only [step, opText, List.count_nil, Nat.add_zero]
+    split <;> simp [everywhere]
   | newLoop =>
     simp only [step, opText, List.count_nil, Nat.add_zero]
     split <;> simp [everywhere]
   | closeLoop =>
     simp only [step, opText, List.count_nil, Nat.add_zero]
     split
-    · simp [everywhere, cat, List.count_append]
+    · simp [everywhere, cat, taskTexts, List.count_append]
     · rfl
   | inval =>
     simp only [step, opText, List.count_nil, Nat.add_zero]
@@ -898,7 +1028,7 @@ theorem conservation (raw : Bool) (ops : List Op) :
   intro c
   suffices h : ∀ s : St, (everywhere (runOps s ops)).count c = (everywhere s).count c + (allText ops).count c by
     have := h (init raw)
-    simpa [everywhere, init, outText, cat, held, qText] using this
+    simpa [everywhere, init, outText, cat, held, qText, taskTexts] using this
   intro s
   induction ops generalizing s with
   | nil => simp [runOps, allText, writesOf]
@@ -933,7 +1063,7 @@ def runOpsOld (s : St) : List Op → St
   | o :: os => runOpsOld (stepOld s o) os
 
 /-- the F8 schedule: look-up, application stops, loop closed, hand-off; then another write and flush -/
-def f8 : List Op := [.newLoop, .start, .write 0 ['a', '\n'], .fl, .fl, .stop, .closeLoop, .fl, .fl, .fl,
+def f8 : List Op := [.newLoop, .start, .write 0 ['a', '\n'], .fl, .fl, .stop, .finish, .closeLoop, .fl, .fl, .fl,
   .write 0 ['b', '\n'], .fl, .fl, .fl]
 
 /-- **F8 (fixed).**  On the old code the schedule `f8` — which is calm, and contains no `close()` — kills the
@@ -946,48 +1076,62 @@ theorem f8_old_loses_new_delivers :
 
 /-! ### driving to quiescence (`settle`): the epilogue "flush, then let everybody finish" -/
 
+/-- the steps `settle` performs: sections of the flush thread, callbacks and task steps of the loop -/
+def flRunTask (o : Op) : Prop := o = .fl ∨ o = .run ∨ o = .task
+
 /-- `settle` only performs flush-thread and loop steps, and the schedule it performs is calm and
-    start-calm: the loop works off what it accepted before the flush thread moves on -/
+    start-calm: the loop works off what it holds before the flush thread moves on -/
 theorem settle_is_calm_schedule (n : Nat) (s : St) :
     ∃ ops, settle n s = runOps s ops ∧ calm s ops = true ∧ startCalm s ops = true ∧
-      ∀ o ∈ ops, o = .fl ∨ o = .run := by
+      ∀ o ∈ ops, flRunTask o := by
   induction n generalizing s with
   | zero => exact ⟨[], rfl, rfl, rfl, by simp⟩
   | succ n ih =>
     simp only [settle]
-    by_cases hp : s.pending.isEmpty = true
-    · simp only [hp, Bool.not_true, Bool.false_eq_true, if_false]
-      by_cases hf : flEnabled s = true
-      · simp only [hf, if_true]
-        obtain ⟨ops, h1, h2, h3, h4⟩ := ih (flStep s)
-        refine ⟨.fl :: ops, by simpa [runOps, step] using h1, ?_, ?_, ?_⟩
-        · simp only [calm, Bool.and_eq_true]
-          refine ⟨?_, by simpa [step] using h2⟩
-          simp only [calmStep]; split <;> simp [hp]
+    by_cases ht : s.tasks.isEmpty = true
+    · simp only [ht, Bool.not_true, Bool.false_eq_true, if_false]
+      by_cases hp : s.pending.isEmpty = true
+      · simp only [hp, Bool.not_true, Bool.false_eq_true, if_false]
+        by_cases hf : flEnabled s = true
+        · simp only [hf, if_true]
+          obtain ⟨ops, h1, h2, h3, h4⟩ := ih (flStep s)
+          refine ⟨.fl :: ops, by simpa [runOps, step] using h1, ?_, ?_, ?_⟩
+          · simp only [calm, Bool.and_eq_true]
+            refine ⟨?_, by simpa [step] using h2⟩
+            simp only [calmStep]; split <;> simp [loopIdle, hp, ht]
+          · simp only [startCalm, startSafe, Bool.true_and]; simpa [step] using h3
+          · intro o ho; rcases List.mem_cons.mp ho with rfl | ho
+            · exact Or.inl rfl
+            · exact h4 o ho
+        · simp only [hf, Bool.false_eq_true, if_false]
+          exact ⟨[], rfl, rfl, rfl, by simp⟩
+      · simp only [hp, Bool.not_false, if_true]
+        obtain ⟨ops, h1, h2, h3, h4⟩ := ih (runStep s)
+        refine ⟨.run :: ops, by simpa [runOps, step] using h1, ?_, ?_, ?_⟩
+        · simp only [calm, calmStep, Bool.true_and]; simpa [step] using h2
         · simp only [startCalm, startSafe, Bool.true_and]; simpa [step] using h3
         · intro o ho; rcases List.mem_cons.mp ho with rfl | ho
-          · exact Or.inl rfl
+          · exact Or.inr (Or.inl rfl)
           · exact h4 o ho
-      · simp only [hf, Bool.false_eq_true, if_false]
-        exact ⟨[], rfl, rfl, rfl, by simp⟩
-    · simp only [hp, Bool.not_false, if_true]
-      obtain ⟨ops, h1, h2, h3, h4⟩ := ih (runStep s)
-      refine ⟨.run :: ops, by simpa [runOps, step] using h1, ?_, ?_, ?_⟩
+    · simp only [ht, Bool.not_false, if_true]
+      obtain ⟨ops, h1, h2, h3, h4⟩ := ih (taskStep s)
+      refine ⟨.task :: ops, by simpa [runOps, step] using h1, ?_, ?_, ?_⟩
       · simp only [calm, calmStep, Bool.true_and]; simpa [step] using h2
       · simp only [startCalm, startSafe, Bool.true_and]; simpa [step] using h3
       · intro o ho; rcases List.mem_cons.mp ho with rfl | ho
-        · exact Or.inr rfl
+        · exact Or.inr (Or.inr rfl)
         · exact h4 o ho
 
-/-- nothing can move any more: the loop has no callback, the flush thread is blocked in `get()` or gone -/
-def settled (s : St) : Bool := s.pending.isEmpty && !flEnabled s
+/-- nothing can move any more: the loop has no task and no callback, the flush thread is blocked in `get()`
+    or gone -/
+def settled (s : St) : Bool := s.tasks.isEmpty && s.pending.isEmpty && !flEnabled s
 
 theorem settled_quiescent (s : St) (h : settled s = true) (hfl : s.fl ≠ .exited) (hb : cat s.buffer = []) :
     quiescent s = true := by
   simp only [settled, Bool.and_eq_true, Bool.not_eq_true', List.isEmpty_iff] at h
-  obtain ⟨hp, hf⟩ := h
+  obtain ⟨⟨ht, hp⟩, hf⟩ := h
   rw [quiescent_iff]
-  refine ⟨hb, ?_, ?_, hp⟩
+  refine ⟨hb, ?_, ?_, hp, ht⟩
   · cases hfl' : s.fl <;> simp [flEnabled, hfl'] at hf
     · simp [hf, qText]
     · exact absurd hfl' hfl
@@ -1016,8 +1160,9 @@ def rank (s : St) : Nat :=
   | .ready l _ _ => rankReady s l
   | .relook g _ _ => 1 + rankReady2 s (relookTarget s g)
 
-/-- what is left to do: queue items to take, sections of the flush thread, callbacks to run -/
-def measure (s : St) : Nat := 11 * s.queue.length + rank s + s.pending.length
+/-- what is left to do: queue items to take, sections of the flush thread, callbacks to run (each makes a
+    task), tasks to start -/
+def measure (s : St) : Nat := 21 * s.queue.length + 2 * rank s + 2 * s.pending.length + s.tasks.length
 
 theorem rankReady2_le (s : St) (l : Option Nat) : rankReady2 s l ≤ 5 := by
   cases l <;> simp [rankReady2]; split <;> omega
@@ -1032,7 +1177,28 @@ theorem run_decreases (s : St) (h : s.pending.isEmpty = false) : measure (runSte
   | nil => simp [hp] at h
   | cons t ps =>
     simp only [runStep, hp]
-    split <;> simp [measure, rank, rankReady, rankReady2, relookTarget, appLoop, hp]
+    have e : rank { s with pending := ps, tasks := s.tasks ++ [{ txt := t, reg := s.regTasks && s.appOn }] } = rank s := rfl
+    simp only [measure, e, hp, List.length_append, List.length_cons, List.length_nil]
+    omega
+
+theorem task_decreases (s : St) (h : s.tasks.isEmpty = false) : measure (taskStep s) < measure s := by
+  cases hp : s.tasks with
+  | nil => simp [hp] at h
+  | cons k ts =>
+    simp only [taskStep, hp]
+    split
+    · have e : rank { s with tasks := ts, log := s.log ++ [.erase, .out s.raw k.txt, .draw] } = rank s := rfl
+      simp only [measure, e, hp, List.length_cons]
+      omega
+    · have e : rank { s with tasks := ts, log := s.log ++ [.out s.raw k.txt] } = rank s := rfl
+      simp only [measure, e, hp, List.length_cons]
+      omega
+
+theorem relookTarget_some {s : St} {g g' : Nat} (h : relookTarget s g = some g') : appLoop s = some g' := by
+  unfold relookTarget at h
+  split at h
+  · cases h
+  · exact h
 
 theorem fl_decreases (s : St) (h : flEnabled s = true) : measure (flStep s) < measure s := by
   simp only [flStep]
@@ -1074,21 +1240,20 @@ theorem fl_decreases (s : St) (h : flEnabled s = true) : measure (flStep s) < me
   | relook g txt dn =>
     simp only [measure, rank, hf]
     -- after the second look-up the flush thread holds `relookTarget s g`
-    show 11 * s.queue.length + rankReady { s with fl := Fl.ready (relookTarget s g) txt dn } (relookTarget s g) + s.pending.length
-        < 11 * s.queue.length + (1 + rankReady2 s (relookTarget s g)) + s.pending.length
+    show 21 * s.queue.length + 2 * rankReady { s with fl := Fl.ready (relookTarget s g) txt dn } (relookTarget s g)
+          + 2 * s.pending.length + s.tasks.length
+        < 21 * s.queue.length + 2 * (1 + rankReady2 s (relookTarget s g)) + 2 * s.pending.length + s.tasks.length
     suffices hle : rankReady { s with fl := Fl.ready (relookTarget s g) txt dn } (relookTarget s g)
         ≤ rankReady2 s (relookTarget s g) by omega
-    unfold relookTarget appLoop
-    by_cases ha : s.appOn = true
-    · simp only [ha, if_true]
-      by_cases hg : s.loopGen = g
-      · simp [hg, rankReady, rankReady2]
-      · have : (some s.loopGen = some g) = False := by simp [hg]
-        simp only [this, if_false]
-        by_cases ho : s.loopOpen = true
-        · simp [rankReady, rankReady2, ho]
-        · simp [rankReady, rankReady2, ho, relookTarget, appLoop, ha]
-    · simp [ha, rankReady, rankReady2]
+    cases ht : relookTarget s g with
+    | none => simp [rankReady, rankReady2]
+    | some g' =>
+      have hl := relookTarget_some ht
+      have hl' : appLoop { s with fl := Fl.ready (some g') txt dn } = some g' := hl
+      simp only [rankReady, rankReady2]
+      split
+      · omega
+      · simp [relookTarget, hl', rankReady2]
 
 theorem settle_settles (n : Nat) (s : St) (h : measure s ≤ n) : settled (settle n s) = true := by
   induction n generalizing s with
@@ -1099,23 +1264,32 @@ theorem settle_settles (n : Nat) (s : St) (h : measure s ≤ n) : settled (settl
       cases hp : s.pending with
       | nil => rfl
       | cons t ps => simp [measure, hp] at hm
+    have ht : s.tasks = [] := by
+      cases ht : s.tasks with
+      | nil => rfl
+      | cons t ps => simp [measure, ht] at hm
     have hf : flEnabled s = false := by
       cases hfe : flEnabled s with
       | false => rfl
       | true => have := fl_decreases s hfe; omega
-    simp [hp, hf]
+    simp [hp, ht, hf]
   | succ n ih =>
     simp only [settle]
-    by_cases hp : s.pending.isEmpty = true
-    · simp only [hp, Bool.not_true, Bool.false_eq_true, if_false]
-      by_cases hf : flEnabled s = true
-      · simp only [hf, if_true]
-        exact ih (flStep s) (by have := fl_decreases s hf; omega)
-      · simp only [hf, Bool.false_eq_true, if_false]
-        simp [settled, hp, hf]
-    · have hp' : s.pending.isEmpty = false := by simpa using hp
-      simp only [hp', Bool.not_false, if_true]
-      exact ih (runStep s) (by have := run_decreases s hp'; omega)
+    by_cases ht : s.tasks.isEmpty = true
+    · simp only [ht, Bool.not_true, Bool.false_eq_true, if_false]
+      by_cases hp : s.pending.isEmpty = true
+      · simp only [hp, Bool.not_true, Bool.false_eq_true, if_false]
+        by_cases hf : flEnabled s = true
+        · simp only [hf, if_true]
+          exact ih (flStep s) (by have := fl_decreases s hf; omega)
+        · simp only [hf, Bool.false_eq_true, if_false]
+          simp [settled, hp, ht, hf]
+      · have hp' : s.pending.isEmpty = false := by simpa using hp
+        simp only [hp', Bool.not_false, if_true]
+        exact ih (runStep s) (by have := run_decreases s hp'; omega)
+    · have ht' : s.tasks.isEmpty = false := by simpa using ht
+      simp only [ht', Bool.not_false, if_true]
+      exact ih (taskStep s) (by have := task_decreases s ht'; omega)
 
 
 theorem runOps_append (s : St) (a b : List Op) : runOps s (a ++ b) = runOps (runOps s a) b := by
@@ -1138,23 +1312,23 @@ theorem allText_append (a b : List Op) : allText (a ++ b) = allText a ++ allText
   | nil => simp [allText, writesOf]
   | cons o os ih => simp only [List.cons_append, allText_cons, ih, List.append_assoc]
 
-theorem flrun_noWrites (ops : List Op) (h : ∀ o ∈ ops, o = .fl ∨ o = .run) :
+theorem flrun_noWrites (ops : List Op) (h : ∀ o ∈ ops, flRunTask o) :
     allText ops = [] ∧ noClose ops = true := by
   induction ops with
   | nil => simp [allText, writesOf, noClose]
   | cons o os ih =>
     have ho := h o (by simp)
     have := ih (fun o' ho' => h o' (by simp [ho']))
-    rcases ho with rfl | rfl <;> simp [allText_cons, opText, noClose, this]
+    rcases ho with rfl | rfl | rfl <;> simp [allText_cons, opText, noClose, this]
 
-theorem flrun_buffer (s : St) (ops : List Op) (h : ∀ o ∈ ops, o = .fl ∨ o = .run) :
+theorem flrun_buffer (s : St) (ops : List Op) (h : ∀ o ∈ ops, flRunTask o) :
     (runOps s ops).buffer = s.buffer := by
   induction ops generalizing s with
   | nil => rfl
   | cons o os ih =>
     have ho := h o (by simp)
     rw [runOps, ih _ (fun o' ho' => h o' (by simp [ho']))]
-    rcases ho with rfl | rfl
+    rcases ho with rfl | rfl | rfl
     · simp only [step, flStep]
       split
       · split <;> rfl
@@ -1164,6 +1338,8 @@ theorem flrun_buffer (s : St) (ops : List Op) (h : ∀ o ∈ ops, o = .fl ∨ o 
       · rfl
       · rfl
     · simp only [step, runStep]
+      split <;> rfl
+    · simp only [step, taskStep]
       split
       · rfl
       · split <;> rfl
@@ -1206,9 +1382,9 @@ example :
     let ops : List Op := [.newLoop, .start, .write 0 ['a', '\n'], .fl, .fl, .fl, .write 1 ['b', '\n'], .fl, .fl,
       .write 2 ['c', '\n'], .write 0 ['d']]
     calm (init false) ops = true ∧ noClose ops = true ∧
-    measure (runOps (init false) (ops ++ [.flush 1])) ≤ 40 ∧
+    measure (runOps (init false) (ops ++ [.flush 1])) ≤ 80 ∧
     quiescent (runOps (init false) ops) = false ∧
-    outText (settle 40 (runOps (init false) (ops ++ [.flush 1]))).log = ['a', '\n', 'b', '\n', 'c', '\n', 'd'] := by
+    outText (settle 80 (runOps (init false) (ops ++ [.flush 1]))).log = ['a', '\n', 'b', '\n', 'c', '\n', 'd'] := by
   decide
 
 
@@ -1239,9 +1415,12 @@ theorem no_nl_step (s : St) (o : Op) (h : '\n' ∉ cat s.buffer) : '\n' ∉ cat 
     · split <;> exact h
     · exact h
     · exact h
-  | run => simp only [step, runStep]; split; exact h; split <;> exact h
+  | writeBad t => exact h
+  | run => simp only [step, runStep]; split <;> exact h
+  | task => simp only [step, taskStep]; split; exact h; split <;> exact h
   | start => simp only [step]; split <;> exact h
   | stop => simp only [step]; split <;> exact h
+  | finish => simp only [step]; split <;> exact h
   | newLoop => simp only [step]; split <;> exact h
   | closeLoop => simp only [step]; split <;> exact h
   | inval => simp only [step]; split <;> exact h
@@ -1270,9 +1449,9 @@ structure CInv (s : St) : Prop where
   drained : flDone s.fl = true → s.queue = [] ∨ s.fl = .exited
   gone : s.fl = .exited → qText s.queue = []
 
-theorem cinv_flrun (s : St) (o : Op) (ho : o = .fl ∨ o = .run) (h : CInv s) : CInv (step s o) := by
+theorem cinv_flrun (s : St) (o : Op) (ho : flRunTask o) (h : CInv s) : CInv (step s o) := by
   obtain ⟨hafter, hhas, hdr, hgone⟩ := h
-  rcases ho with rfl | rfl
+  rcases ho with rfl | rfl | rfl
   · simp only [step, flStep]
     cases hf : s.fl with
     | idle =>
@@ -1365,11 +1544,13 @@ theorem cinv_flrun (s : St) (o : Op) (ho : o = .fl ∨ o = .run) (h : CInv s) : 
         · rw [hf] at h; cases h
     | exited => exact ⟨hafter, hhas, hdr, hgone⟩
   · simp only [step, runStep]
+    split <;> exact ⟨hafter, hhas, hdr, hgone⟩
+  · simp only [step, taskStep]
     split
     · exact ⟨hafter, hhas, hdr, hgone⟩
     · split <;> exact ⟨hafter, hhas, hdr, hgone⟩
 
-theorem cinv_run (s : St) (ops : List Op) (ho : ∀ o ∈ ops, o = .fl ∨ o = .run) (h : CInv s) :
+theorem cinv_run (s : St) (ops : List Op) (ho : ∀ o ∈ ops, flRunTask o) (h : CInv s) :
     CInv (runOps s ops) := by
   induction ops generalizing s with
   | nil => exact h
@@ -1447,7 +1628,7 @@ theorem close_delivers (raw : Bool) (ops : List Op) (t : Nat)
   have hq : quiescent s = true := by
     simp only [settled, Bool.and_eq_true, Bool.not_eq_true', List.isEmpty_iff] at hset
     rw [quiescent_iff]
-    exact ⟨hbuf, hcs.gone hex, by simp [hex, held], hset.1⟩
+    exact ⟨hbuf, hcs.gone hex, by simp [hex, held], hset.1.2, hset.1.1⟩
   refine ⟨hex, hq, ?_⟩
   rw [hrun] at hq ⊢
   rw [exactly_once_after_flush raw _ hcalm hq, hall]
@@ -1455,9 +1636,9 @@ theorem close_delivers (raw : Bool) (ops : List Op) (t : Nat)
 example :
     let ops : List Op := [.newLoop, .start, .write 0 ['a', '\n'], .fl, .write 1 ['b'], .write 2 ['c', '\n', 'd']]
     calm (init false) ops = true ∧ noClose ops = true ∧
-    measure (runOps (init false) (ops ++ [.flush 0, .close])) ≤ 60 ∧
-    (settle 60 (runOps (init false) (ops ++ [.flush 0, .close]))).fl = .exited ∧
-    outText (settle 60 (runOps (init false) (ops ++ [.flush 0, .close]))).log = ['a', '\n', 'b', 'c', '\n', 'd'] := by
+    measure (runOps (init false) (ops ++ [.flush 0, .close])) ≤ 120 ∧
+    (settle 120 (runOps (init false) (ops ++ [.flush 0, .close]))).fl = .exited ∧
+    outText (settle 120 (runOps (init false) (ops ++ [.flush 0, .close]))).log = ['a', '\n', 'b', 'c', '\n', 'd'] := by
   decide
 
 
@@ -1475,6 +1656,7 @@ theorem exiting_implies_running (raw : Bool) (ops : List Op) :
     apply ih
     cases o with
     | write t d => simp only [step, doWrite]; split <;> exact hs
+    | writeBad t => exact hs
     | flush t => exact hs
     | close => exact hs
     | fl =>
@@ -1486,38 +1668,40 @@ theorem exiting_implies_running (raw : Bool) (ops : List Op) :
       · split <;> exact hs
       · exact hs
       · exact hs
-    | run => simp only [step, runStep]; split; exact hs; split <;> exact hs
+    | run => simp only [step, runStep]; split <;> exact hs
+    | task => simp only [step, taskStep]; split; exact hs; split <;> exact hs
     | start => simp only [step]; split; simp; exact hs
     | stop => simp only [step]; split; simp; exact hs
+    | finish => simp only [step]; split <;> exact hs
     | newLoop => simp only [step]; split <;> exact hs
     | closeLoop => simp only [step]; split <;> exact hs
     | inval => simp only [step]; split <;> exact hs
     | exit => simp only [step]; split; (rename_i hc; intro _; exact hc); exact hs
 
-/-- **exit_phase_section.**  A batch that the loop runs while the application is in the exit-requested
-    phase (`is_done` already true, prompt still drawn, final rendering pending) is still emitted as
+/-- **exit_phase_section.**  A task that takes its first step while the application is in the exit-requested
+    phase (`is_done` already true, prompt still drawn, final rendering pending) still emits its text as
     `erase; text; redraw`; the application stays in that phase, and the final rendering follows the
     redraw when `run_async` resumes.  (`in_terminal` tests `_is_running`, not `is_done`.) -/
-theorem exit_phase_section (s : St) (t : Text) (ps : List Text)
-    (hon : s.appOn = true) (_hex : s.exiting = true) (hp : s.pending = t :: ps) :
-    (step s .run).log = s.log ++ [.erase, .out s.raw t, .draw] ∧
-    (step s .run).appOn = true ∧ (step s .run).exiting = s.exiting ∧
-    (step (step s .run) .stop).log = s.log ++ [.erase, .out s.raw t, .draw, .doneDraw] := by
-  simp [step, runStep, hp, hon]
+theorem exit_phase_section (s : St) (k : Task) (ts : List Task)
+    (hon : s.appOn = true) (_hex : s.exiting = true) (hp : s.tasks = k :: ts) :
+    (step s .task).log = s.log ++ [.erase, .out s.raw k.txt, .draw] ∧
+    (step s .task).appOn = true ∧ (step s .task).exiting = s.exiting ∧
+    (step (step s .task) .stop).log = s.log ++ [.erase, .out s.raw k.txt, .draw, .doneDraw] := by
+  simp [step, taskStep, hp, hon]
 
 /-- what `in_terminal` would do if its early-out tested `app.is_done` instead of `not app._is_running`
     (the seeded regression C20-b): in the exit-requested phase it takes the "no application" shortcut -/
-def runStepIsDone (s : St) : St :=
-  match s.pending with
+def taskStepIsDone (s : St) : St :=
+  match s.tasks with
   | [] => s
-  | t :: ps =>
+  | k :: ts =>
     if s.appOn ∧ ¬ s.exiting then
-      { s with pending := ps, log := s.log ++ [.erase, .out s.raw t, .draw] }
-    else { s with pending := ps, log := s.log ++ [.out s.raw t] }
+      { s with tasks := ts, log := s.log ++ [.erase, .out s.raw k.txt, .draw] }
+    else { s with tasks := ts, log := s.log ++ [.out s.raw k.txt] }
 
-/-- the schedule of the exit window: the callback is accepted, `exit()` is called, the section runs, then
-    `run_async` resumes -/
-def exitWindow : List Op := [.newLoop, .start, .write 0 ['a', '\n'], .fl, .fl, .fl, .exit, .run, .stop]
+/-- the schedule of the exit window: the callback is accepted, `exit()` is called, the callback makes the
+    task, the task runs, then `run_async` resumes -/
+def exitWindow : List Op := [.newLoop, .start, .write 0 ['a', '\n'], .fl, .fl, .fl, .exit, .run, .task, .stop]
 
 /-- **is_done_shortcut_witness.**  On the schedule `exitWindow` (start-calm and calm) the model of the
     current code keeps the bracket; with the `is_done` early-out the text is written onto the drawn prompt. -/
@@ -1525,9 +1709,9 @@ theorem is_done_shortcut_witness :
     startCalm (init false) exitWindow = true ∧ calm (init false) exitWindow = true ∧
     (runOps (init false) exitWindow).log = [.draw, .erase, .out false ['a', '\n'], .draw, .doneDraw] ∧
     phRun .off (runOps (init false) exitWindow).log = some .off ∧
-    (let s := runOps (init false) [.newLoop, .start, .write 0 ['a', '\n'], .fl, .fl, .fl, .exit]
-     (step (runStepIsDone s) .stop).log = [.draw, .out false ['a', '\n'], .doneDraw] ∧
-     phRun .off (step (runStepIsDone s) .stop).log = none) := by decide
+    (let s := runOps (init false) [.newLoop, .start, .write 0 ['a', '\n'], .fl, .fl, .fl, .exit, .run]
+     (step (taskStepIsDone s) .stop).log = [.draw, .out false ['a', '\n'], .doneDraw] ∧
+     phRun .off (step (taskStepIsDone s) .stop).log = none) := by decide
 
 
 end Ptk.C20
